@@ -499,11 +499,12 @@ impl AddressLookupServices {
     ///
     /// If there is historical Address Lookup data, it will be published immediately on this service.
     pub fn add_boxed(&self, service: Box<dyn AddressLookup>) {
-        {
-            let data = self.last_data.read().expect("poisoned");
-            if let Some(data) = &*data {
-                service.publish(data)
-            }
+        // Keep `last_data` locked until the service is registered. `publish` holds it
+        // exclusively for its whole fan-out, so a concurrent publish either finished
+        // before we read `last_data` or already sees the new service.
+        let data = self.last_data.read().expect("poisoned");
+        if let Some(data) = &*data {
+            service.publish(data)
         }
         self.services.write().expect("poisoned").push(service);
     }
@@ -530,15 +531,17 @@ impl AddressLookupServices {
             Some(filter) => data.apply_filter(filter),
             None => Cow::Borrowed(data),
         };
+        // Taken first and held throughout (lock order: `last_data`, then `services`):
+        // serializes concurrent publishers and `add_boxed`, so every service ends on the
+        // same, latest data.
+        let mut last_data = self.last_data.write().expect("poisoned");
         let services = self.services.read().expect("poisoned");
         for service in &*services {
             service.publish(&data);
         }
+        drop(services);
 
-        self.last_data
-            .write()
-            .expect("poisoned")
-            .replace(data.into_owned());
+        last_data.replace(data.into_owned());
     }
 
     /// Resolves the addressing information for an [`EndpointId`] across all configured services.
